@@ -98,9 +98,15 @@ def _temp_def(t: Any) -> int | None:
     return None
 
 
-def il_temps(ctx: Ctx, py: PyProgram) -> None:
-    mode = "all" if ctx.tier == "thorough" else "reps"
-    base, pre, _u = sweep(stages=("lift",), with_prefixes=mode)
+def il_temps(ctx: Ctx, py: PyProgram, cases: list | None = None, rule: str = "C07.1", why: str = "", floors: tuple = (6000, 7000)) -> None:
+    """cases: lifted cases to analyse (default: a sweep of its own); rule/why/floors let another property share the rule (C06: the
+    Rust core starts every scratch value of an instruction from a constant, so an IL read of an unwritten scratch register is a
+    divergence between the cores as soon as an earlier instruction left something there)"""
+    if cases is None:
+        mode = "all" if ctx.tier == "thorough" else "reps"
+        base, pre, _u = sweep(stages=("lift",), with_prefixes=mode)
+    else:
+        base, pre = cases, []
     rows = isa.py_rows(py)
     n = reads_total = 0
     groups: dict[tuple, list] = collections.defaultdict(list)
@@ -143,11 +149,11 @@ def il_temps(ctx: Ctx, py: PyProgram) -> None:
     for (op, k), lst in sorted(groups.items()):
         r = rows[op]
         c, i = lst[0]
-        ctx.violation("C07.1/temp-def-use", key_of(isa.INSTR_PY, f"opcode 0x{op:02X} {r.cls}", f"TEMP{k} read before write"),
+        ctx.violation(rule + "/temp-def-use", key_of(isa.INSTR_PY, f"opcode 0x{op:02X} {r.cls}", f"TEMP{k} read before write"),
                       f"opcode 0x{op:02X} ({r.name}): the IL reads scratch register TEMP{k} on a path where this instruction has not written it "
-                      f"(statement {i}: {c.il[i][:90]}); the result depends on what an earlier instruction left there ({len(lst)} cases)", f"{isa.OPTABLE}:{r.ln}", il=c.il[:8])
-    ctx.instance("C07.1/temp-def-use", "scratch-register reads in the IL of all accepted encodings, each checked against the must-defined set", reads_total, 6000)
-    ctx.instance("C07.1/il-cases", "IL lists analysed (opcode x selector, prefix x class)", n, 7000)
+                      f"(statement {i}: {c.il[i][:90]}); the result depends on what an earlier instruction left there ({len(lst)} cases){why}", f"{isa.OPTABLE}:{r.ln}", il=c.il[:8])
+    ctx.instance(rule + "/temp-def-use", "scratch-register reads in the IL of all accepted encodings, each checked against the must-defined set", reads_total, floors[0])
+    ctx.instance(rule + "/il-cases", "IL lists analysed (opcode x selector, prefix x class)", n, floors[1])
     n_temps = py.value(isa.EMU_PY, "NUM_TEMP_REGISTERS")
     if any(k >= n_temps for k in temps_seen):
         ctx.violation("C07.1/temp-range", "TEMP index", f"IL uses scratch registers {sorted(temps_seen)} beyond NUM_TEMP_REGISTERS={n_temps}", isa.OPCODES_PY)
